@@ -69,3 +69,7 @@ check("C04", "exploration",
       "By-construction monitor at handshake level: ~450 handshakes per seed between a verifying endpoint (client over TLS 1.1/1.2/1.3/DTLS with RSA transport, ECDHE-RSA, ECDHE-ECDSA, TLS 1.3 RSA/ECDSA/Ed25519; server with client authentication) and a peer whose chain and key were minted for one ground-truth label, under no / strict / permissive callback; completion on the verifying side must be justified by the label or by an explicit callback override, never for a wrong-key peer.",
       "issuer-not-CA and unknown-critical-extension chains cannot be presented by a MatrixSSL peer (it validates its own identity at load time): those labels are decided at API level by C03; a server requests client authentication by registering a callback, so 'no callback' exists for clients only.",
       "by-construction labelled-credential monitor on fork-cloned handshakes, ASan+UBSan build", "3/C04")
+check("C20", "exploration",
+      "Held on every executed schedule: 40 (quick) / 1008 + 20 helgrind (thorough) process runs of 2-16 worker threads sharing one sslKeys_t (identities, CA list, ticket keys, ECDHE cache), the global session cache, the PRNG and the CRL cache, with a ticket-key rotator and a CRL churn thread and injected yields between API calls; ThreadSanitizer (and helgrind) reports, crashes and watchdog-detected deadlocks are violations, and the recorded per-operation history must have a sequential explanation per credential (issuer started earlier, same master secret, refusals justified by a deletion/invalidations/eviction that overlapped).",
+      "TSan judges only code that ran concurrently in some run; one ssl_t is never shared between threads; real clock and /dev/urandom (schedules are not replayable bit-for-bit, a replay repeats the run 12 times); eviction is accepted as a reason for refusal only when enough cache users overlapped.",
+      "ThreadSanitizer / helgrind race detection plus offline sequential-explanation checker over recorded operation histories, randomized schedules with injected yields", "3/C20")
